@@ -30,6 +30,17 @@ How a polynomial identity is decided by evaluation
   `lookup:numeric_fallback` (and `exhaustive` is then reported false).  Exceptions raised by the
   interpreted table/helper code itself (KeyError from a dropped entry, ...) remain failures.
   `C08_FORCE_NUMERIC_FALLBACK=1` forces that path (used to test it).
+  The TABLE-level evaluation has the same treatment (`getattr(f, 'py_func', f)`, so plain un-jitted functions
+  work too): if a Series cannot go through a table (numba error, numpy ufunc / math function / comparison
+  applied to e => TypeError, anything raised inside oracles/series.py), the function is called as users
+  call it with FLOAT input at the same 8 eccentricities (array + scalar) and compared with the oracle-only
+  reference, label `table:numeric_fallback`; an exception on float input is a failure.  The generated
+  compiled cases then use the oracle-only reference as well (`compiled:oracle_only_reference`).
+  Closed form := a k = l-2p+q = 0 cell carrying terms beyond e^N; every other cell is compared through e^N
+  only and whatever it carries beyond e^N is unconstrained (label `cell:extra_order`; the compiled value is
+  then compared with exact-through-e^N plus the interpreted twin's own higher terms).  The by-name routes
+  `orderl{l}.eccentricity_funcs_trunc{N}` / `eccentricity_funcs_l{l}_trunc{N}` are internal names: checked
+  when present, skipped with a `route:*_absent` label otherwise.
 
 Oracles
   exact      `oracles.hansen`: X^{n,m}_k from the eccentric-anomaly integral expanded as a Laurent
@@ -249,17 +260,54 @@ def _numba_raised(exc):
     return False
 
 
+class _ExactUnavailable(Exception):
+    """The function cannot be evaluated on a Series argument (harness limitation, not a verdict)."""
+
+
+def _exact_unavailable(exc):
+    """Does this exception, raised while a Series travelled through repository code, mean "the exact
+    evaluation is impossible here" rather than "the table code is broken"?  Yes when it comes out of numba
+    (typing/lowering: a Series reached compiled code), out of oracles/series.py (unsupported operation) or is
+    a TypeError / AttributeError / NotImplementedError (numpy ufunc, math.*, comparison, `.shape`, ... applied
+    to a Series).  The numeric fallback then calls the function with FLOAT input, where any exception of the
+    table code is a failure again - so a genuinely broken table cannot hide behind this.  KeyError,
+    IndexError, NameError, ... raised by the interpreted table code stay failures directly."""
+    import traceback
+    if _numba_raised(exc):
+        return True
+    if isinstance(exc, (TypeError, AttributeError, NotImplementedError)):
+        return True
+    tb = traceback.extract_tb(exc.__traceback__)
+    return bool(tb) and tb[-1].filename.replace(os.sep, '/').endswith('oracles/series.py')
+
+
 _VAR = Series.variable(SERIES_ORDER)
 _series_cache = {}
 
 
 def _table_series(fn):
-    """fn.py_func(exact series) -> {p: {q: Series}} (cached per function object)."""
+    """fn.py_func(exact series) -> ({p: {q: Series}}, n_aliased), cached per function object; works for
+    numba dispatchers and plain functions alike.  Raises _ExactUnavailable (also cached) when a Series
+    cannot go through the function."""
     pf = _py(fn)
     key = id(pf)
+    if key in _series_cache and _series_cache[key][1] is None:
+        raise _ExactUnavailable(_series_cache[key][2])
     if key not in _series_cache:
-        with repo_call('table.py_func(series)'):
-            raw = _dejit(fn)(_VAR)
+        try:
+            if os.environ.get('C08_FORCE_NUMERIC_FALLBACK'):
+                raise _ExactUnavailable('forced by C08_FORCE_NUMERIC_FALLBACK')
+            with repo_call('table.py_func(series)'):
+                raw = _dejit(fn)(_VAR)
+        except _ExactUnavailable as e:
+            _series_cache[key] = (pf, None, str(e))
+            raise
+        except Exception as e:  # noqa
+            cause = getattr(e, 'exc', e)
+            if not _exact_unavailable(cause):
+                raise
+            _series_cache[key] = (pf, None, '%s: %s' % (type(cause).__name__, cause))
+            raise _ExactUnavailable(_series_cache[key][2])
         out = {}
         ident = {}
         for p in raw:
@@ -348,10 +396,15 @@ def _check_table(c, l, N, res, where, counts):
                     bad_absent.append('(p=%d,q=%d) missing but exact G^2 has %s*e^%d' % (p, q, nz[0][1], nz[0][0]))
                 continue
             s = row[q]
-            closed = s.degree() > N
+            # closed forms = the k = l-2p+q = 0 cells written with terms beyond e^N: equal "to all orders"
+            # (through e^40).  Any other cell is compared through e^N only; what it carries beyond e^N is
+            # not constrained by the statement (counted under 'extra_order').
+            closed = s.degree() > N and (l - 2 * p + q) == 0
             ex = _exact(l, p, q, closed)
             upto = SERIES_ORDER if closed else N
             counts['closed' if closed else 'poly'] += 1
+            if s.degree() > N and not closed:
+                counts['extra_order'] += 1
             if s.is_zero():
                 counts['present_zero'] += 1
             for i in range(upto + 1):
@@ -379,7 +432,7 @@ def _check_table(c, l, N, res, where, counts):
 
 
 def _new_counts():
-    return {'absent': 0, 'closed': 0, 'poly': 0, 'coef': 0, 'present_zero': 0}
+    return {'absent': 0, 'closed': 0, 'poly': 0, 'coef': 0, 'present_zero': 0, 'extra_order': 0}
 
 
 def _count_labels(c, counts, aliased, pre):
@@ -397,6 +450,28 @@ def _count_labels(c, counts, aliased, pre):
         c.label('cell:aliased')
     if counts['present_zero']:
         c.label('cell:present_zero')
+    if counts['extra_order']:
+        c.label('cell:extra_order')
+
+
+def _table_numeric_fallback(c, fn, l, N, where):
+    """Exact evaluation of this table function is impossible: compare the function as users call it (compiled
+    dispatcher, or the plain function if it is not jitted) at 8 eccentricities in (0, 0.6], array and scalar
+    call, with the exact series for every (p,q) (oracle-only reference, compiled-value tolerance, key sets
+    included).  An exception on FLOAT input is a failure of the table code."""
+    import numpy as np
+    c.label('table:numeric_fallback')
+    arr = np.asarray(FALLBACK_E, dtype=np.float64)
+    with repo_call('%s(float) l=%d N=%d' % (where, l, N)):
+        got = _to_plain(_call_compiled(fn, arr), len(FALLBACK_E))
+        scal = [_to_plain(_call_compiled(fn, float(x)), 1) for x in FALLBACK_E]
+    _compare_level(c, l, N, got, FALLBACK_E, where + '_numeric', direct=True)
+    for x, o in zip(FALLBACK_E, scal):
+        before = len(c.fails)
+        _compare_level(c, l, N, o, [x], where + '_numeric', direct=True)
+        if len(c.fails) > before:
+            break
+    return len(got)
 
 
 def _eval_table(case):
@@ -406,18 +481,35 @@ def _eval_table(case):
     counts = _new_counts()
     with repo_call('eccentricity_truncations[N][l]'):
         fn = m['ef'].eccentricity_truncations[N][l]
-    res, aliased = _table_series(fn)
-    _check_table(c, l, N, res, 'truncations', counts)
-    byname = getattr(m['order'][l], 'eccentricity_funcs_trunc%d' % N, None)
+    # the dict entry is the published interface; the by-name routes are checked when they exist
+    byname = getattr(m['order'].get(l), 'eccentricity_funcs_trunc%d' % N, None)
     byname2 = getattr(m['ef'], 'eccentricity_funcs_l%d_trunc%d' % (l, N), None)
-    c.check(byname is not None and byname2 is not None, {'clause': 'missing_function', 'l': l},
-            'orderl%d.eccentricity_funcs_trunc%d / eccentricity_funcs_l%d_trunc%d not found' % (l, N, l, N))
-    for other, where in ((byname, 'by_name'), (byname2, 'package_alias')):
-        if other is not None and _py(other) is not _py(fn):
-            res2, _ = _table_series(other)
-            _check_table(c, l, N, res2, where, _new_counts())
+    if byname is None:
+        c.label('route:by_name_absent')
+    if byname2 is None:
+        c.label('route:package_alias_absent')
+    aliased = 0
+    ncell_numeric = 0
+    seen = []
+    for f, where in ((fn, 'truncations'), (byname, 'by_name'), (byname2, 'package_alias')):
+        if f is None or any(_py(f) is g for g in seen):
+            continue
+        seen.append(_py(f))
+        first = where == 'truncations'
+        try:
+            res, al = _table_series(f)
+        except _ExactUnavailable:
+            n = _table_numeric_fallback(c, f, l, N, where)
+            if first:
+                ncell_numeric = n
+            continue
+        _check_table(c, l, N, res, where, counts if first else _new_counts())
+        if first:
+            aliased = al
     _count_labels(c, counts, aliased, 'nt')
-    c.nontrivial = counts['coef'] > 0
+    if ncell_numeric:
+        c.label('nt_numeric_cells=%d' % ncell_numeric)
+    c.nontrivial = counts['coef'] > 0 or ncell_numeric > 0
     return c.result()
 
 
@@ -434,7 +526,7 @@ def _eval_lookup_py(case):
                 raw = _dejit(helper)(_VAR)
         except Exception as e:  # noqa
             cause = getattr(e, 'exc', e)
-            if not _numba_raised(cause):
+            if not _exact_unavailable(cause):
                 raise               # the interpreted table / helper code itself raised: a genuine failure
             raw = None
     if raw is None:
@@ -462,16 +554,26 @@ _ref_cache = {}
 
 
 def _cells(l, N):
-    """[(p, q, closed, (D, integer numerators of the exact coefficients through e^N))] per table cell."""
+    """[(p, q, closed, (D, integer numerators of the reference coefficients))] per table cell, or None when the
+    table cannot be evaluated exactly."""
     key = (l, N)
     if key not in _ref_cache:
         fn = _mods()['ef'].eccentricity_truncations[N][l]
-        res, _ = _table_series(fn)
+        try:
+            res, _ = _table_series(fn)
+        except _ExactUnavailable:
+            _ref_cache[key] = None          # callers switch to the oracle-only ("direct") reference
+            return None
         out = []
         for p in sorted(res):
             for q in sorted(res[p]):
-                closed = res[p][q].degree() > N and (l - 2 * p + q) == 0
-                ex = _exact(l, p, q)[:N + 1]
+                s = res[p][q]
+                closed = s.degree() > N and (l - 2 * p + q) == 0
+                ex = list(_exact(l, p, q)[:N + 1])
+                if not closed and s.degree() > N:
+                    # terms beyond e^N of a non-closed cell are unconstrained by the statement; the compiled
+                    # code must merely agree with its own interpreted twin there
+                    ex += [s[i] for i in range(N + 1, s.degree() + 1)]
                 out.append((p, q, closed, _int_poly(ex)))
         _ref_cache[key] = out
     return _ref_cache[key]
@@ -495,15 +597,17 @@ def _reference(l, N, evals, cells=None):
     (integer arithmetic: e = a/b with b a power of two; int/int true division is correctly rounded)."""
     out = {}
     pows = []
+    cells = _cells(l, N) if cells is None else cells
+    top = max([N] + [len(ip[1]) - 1 for _, _, closed, ip in cells if not closed])
     for x in evals:
         a, b = float(x).as_integer_ratio()
         pa = [1]
         pb = [1]
-        for _ in range(N):
+        for _ in range(top):
             pa.append(pa[-1] * a)
             pb.append(pb[-1] * b)
         pows.append((pa, pb))
-    for p, q, closed, ip in (_cells(l, N) if cells is None else cells):
+    for p, q, closed, ip in cells:
         lst = []
         for x, (pa, pb) in zip(evals, pows):
             if closed:
@@ -513,14 +617,15 @@ def _reference(l, N, evals, cells=None):
                 lst.append((fv, CLOSED_RTOL * scale + UNDERFLOW_FLOOR, scale))
             else:
                 D, nk = ip
+                M = len(nk) - 1
                 num = 0
                 mag = 0
                 for k, n in enumerate(nk):
                     if n:
-                        t = n * pa[k] * pb[N - k]
+                        t = n * pa[k] * pb[M - k]
                         num += t
                         mag += abs(t)
-                den = D * pb[N]
+                den = D * pb[M]
                 scale = mag / den
                 lst.append((num / den, VAL_RTOL * scale + UNDERFLOW_FLOOR, scale))
         out[(p, q)] = lst
@@ -547,6 +652,9 @@ def _compare_level(c, l, N, got, evals, where, direct=False):
     direct=True : reference from the oracle alone; key set: every absent (p,q) of the grid must vanish
                   through e^N, every present key is compared (k = 0 as closed form, else truncated polynomial)."""
     sig = {'clause': 'compiled_value', 'where': where, 'l': l}
+    if not direct and _cells(l, N) is None:
+        direct = True
+        c.label('compiled:oracle_only_reference')
     if direct:
         qmax = N // 2 + 2
         okkeys = {k for k in got if 0 <= k[0] <= l}
@@ -823,6 +931,7 @@ def extra_coverage(tier, merged):
     n_lookups = lab.get('lookup_py', 0)
     complete = (merged.get('fixed_cases', 0) == expected and n_tables == sum(1 for l in LS for N in NS if published(l, N))
                 and n_lookups == expected - n_tables - len(WITNESSES) and not lab.get('lookup:numeric_fallback')
+                and not lab.get('table:numeric_fallback')
                 and not any('"exception"' in k for k in merged.get('fail_sig_counts', {})))
     return {'exhaustive': bool(complete),
             'explanation': ('exhaustive refers to the enumerated part: every published table (l,N) and every lookup helper '
